@@ -515,4 +515,44 @@ theorem resolveFieldsRaw_noPanic (cfg : Cfg) (hg : cfg.arrayGuard = true) (hn : 
   · exact resolveFields_noPanic cfg hg re _ cm []
   · simp [hn, Res.isPanic]
 
+/-! ### array envelopes keep positions, junk entries are errors -/
+
+theorem parseArrayEnvelope_spec (parseVP : J → Option EntryVP) :
+    ∀ (l : List J) (r : List EntryVP), parseArrayEnvelope parseVP l = .ok r → l.map parseVP = r.map some
+  | [], r, h => by unfold parseArrayEnvelope at h; injection h with h; subst h; rfl
+  | e :: es, r, h => by
+    unfold parseArrayEnvelope at h
+    split at h
+    · cases h
+    · next p hp =>
+      split at h
+      · next r' hr =>
+        injection h with h; subst h
+        simp [hp, parseArrayEnvelope_spec parseVP es r' hr]
+      · cases h
+      · cases h
+
+theorem parseArrayEnvelope_junk (parseVP : J → Option EntryVP) :
+    ∀ (l : List J) (e : J), e ∈ l → parseVP e = none → ∀ r, parseArrayEnvelope parseVP l ≠ .ok r
+  | [], e, he, _, _ => by cases he
+  | x :: xs, e, he, hn, r => by
+    intro h
+    have := parseArrayEnvelope_spec parseVP (x :: xs) r h
+    have hmem : parseVP e ∈ (x :: xs).map parseVP := List.mem_map.2 ⟨e, he, rfl⟩
+    rw [this, hn] at hmem
+    obtain ⟨_, _, hc⟩ := List.mem_map.1 hmem
+    cases hc
+
+theorem parseArrayEnvelope_noPanic (parseVP : J → Option EntryVP) : ∀ l, (parseArrayEnvelope parseVP l).isPanic = false
+  | [] => by unfold parseArrayEnvelope; rfl
+  | e :: es => by
+    unfold parseArrayEnvelope
+    have ih := parseArrayEnvelope_noPanic parseVP es
+    split
+    · rfl
+    · split
+      · rfl
+      · rfl
+      · next s heq => rw [heq] at ih; simp [Res.isPanic] at ih
+
 end Nuts.C12
